@@ -71,6 +71,7 @@ class RunState:
         self.stub_assumes = {}
         self.locals = {}
         self.reads = []
+        self.effects = []
 
 
 class Verifier:
@@ -254,6 +255,22 @@ class Verifier:
 
         @b('exists_cells')
         def _exists_cells(I_, a, k):
+            hints = k.get('hints')
+            if hints:
+                # proof hint: candidate witnesses; proving the disjunction proves the existential
+                grid, fn = a[0], a[1]
+                shape = I.getattr_(grid, 'shape')
+                h, w = I.getattr_(shape, 'height'), I.getattr_(shape, 'width')
+                alts = []
+                for p in hints:
+                    y, x = I.getattr_(p, 'y'), I.getattr_(p, 'x')
+                    guard = z3.And(zint(y) >= 0, zint(y) < zint(h), zint(x) >= 0, zint(x) < zint(w))
+                    from .interp import DEAD
+                    body = I.pure(lambda p=p: I.truth_term(I.call(fn, [p], {})), guard)
+                    if body is DEAD:
+                        continue
+                    alts.append(z3.And(guard, zbool(body)))
+                return concretize(z3.Or(*alts)) if alts else False
             return self.quant_cells(a[0], a[1], False)
 
         @b('symbolic')
@@ -307,6 +324,20 @@ class Verifier:
             pairs = list(zip(syms, fresh))
             body = z3.And(*[z3.substitute(f, *pairs) for f in facts], z3.substitute(cond, *pairs))
             return z3.Exists(fresh, body)
+
+        @b('effects')
+        def _effects(I_, a, k):
+            # number of recorded effects of a kind during the target's execution:
+            # 'set_order' (iteration order of a set reaches the result), 'global_write', 'hash_str', 'identity'
+            return sum(1 for kind, what in self.state.effects if kind == a[0])
+
+        @b('draw_value')
+        def _draw_value(I_, a, k):
+            # outcome of the k-th scalar draw of the generator (ghost: lets a contract name a random choice)
+            d = a[0].draws[a[1]]
+            if d[0] not in ('choice', 'integers', 'random'):
+                raise Unsupported('draw_value of a vector draw')
+            return d[1][0]
 
         @b('draws')
         def _draws(I_, a, k):
@@ -729,6 +760,9 @@ class Verifier:
                     kwargs[pname] = si.value
                 else:
                     args.append(si.value)
+            if spec.opts.get('call') is not None:
+                args = list(I.call(spec.opts['call'], [], byname))
+                kwargs = {}
             if spec.kind == 'lemma':
                 st.phase = 'post'
                 I.call(spec.fn, [], byname)
@@ -752,6 +786,7 @@ class Verifier:
                         hooks[fm] = (lambda I_, f_, a_, k_, ms=ms: self.modular_call(ms, f_, a_, k_))
             I.contract_hooks = hooks
             I.read_log = st.reads
+            I.effects = st.effects
             I.read_base = len(I.pc)
             I.reads_from = 0
             try:
@@ -764,6 +799,7 @@ class Verifier:
             finally:
                 I.contract_hooks = {}
                 I.read_log = None
+                I.effects = None
             st.phase = 'post'
             st.old_i = 0
             if I.check_sat() != z3.unsat:
